@@ -27,6 +27,7 @@ def run(ctx):
     r3_session_id(chk, fx)
     r4_context(chk, fx)
     r5_simultaneous(chk, fx)
+    r6_whole_message(chk, fx)
 
 
 def r1_advertised(chk, fx):
@@ -318,3 +319,31 @@ def r5_simultaneous(chk, fx):
                or (b.dominates(recv[0].bb, ap["yield"]) and b.dominates(ap["yield"], send[0].bb))]
     chk.instance("C12/R5", "no await separates creating the send future and the receive future", b.name, recv[0].loc(), holds=not between,
                  key="C12/R5 Session::new await-between-send-and-recv")
+
+
+# ---------------------------------------------------------------------------------------------
+def whole_message_rule(chk, fx, rule, name, label):
+    """The message is accepted only when the document-level loop has read it to its end (Eof, or the end-of-message marker as text):
+    whatever follows the root element — a second <capabilities>, a stray <session-id>, another message — must reach the arm that
+    rejects it.  Decided on every explored path that can return Ok: the last document-level event it assumed."""
+    from vlib import absint as A
+    t = fx.thir_body(name)
+    chk.analysed(name)
+    n = 0
+    for p in A.Interp(fx, crates=("netconf",), max_paths=3000).explore(name):
+        if p.end not in ("return", "fallthrough"):
+            continue
+        if A.is_res(p.ret) and p.ret[2] == "Err":
+            continue
+        n += 1
+        ev = [v for k, v in p.assume.items() if k.startswith("variant:") and "read_resolved_event" in k and k.endswith("→Ok.0.1") and isinstance(v, str)]
+        marker = any(v is True and "MARKER" in k for k, v in p.assume.items())
+        ok = bool(ev) and (ev[-1] == "Eof" or (ev[-1] == "Text" and marker))
+        chk.instance(rule, "%s: Ok only after the whole message was read (last event: %s)" % (label, (ev or ["none"])[-1]), name,
+                     loc_of(t.get("sp")), holds=ok, key="%s %s accepts-without-reading-to-the-end (%s)" % (rule, label, (ev or ["none"])[-1]),
+                     detail=None if ok else "content after the root element is never looked at: a message with a trailer is accepted")
+    chk.floor("%s Ok paths of %s" % (rule, label), n, 1)
+
+
+def r6_whole_message(chk, fx):
+    whole_message_rule(chk, fx, "C12/R6", "netconf::message::ServerMsg::from_xml", "ServerMsg::from_xml")
